@@ -24,6 +24,7 @@ func main() {
 	commands["gen08"] = cmdGen08
 	commands["realclock"] = cmdRealClock
 	commands["upgrade"] = cmdUpgrade
+	commands["apicancel"] = cmdApiCancel
 	commands["acthelper"] = cmdActHelper
 	if len(os.Args) < 2 {
 		fmt.Fprintln(os.Stderr, "usage: vdriver <command> [flags]")
